@@ -1,3 +1,5 @@
+import re
+
 from mindsdb_sql.exceptions import ParsingException
 
 
@@ -89,3 +91,20 @@ def tokens_to_string(tokens):
     # last line
     content += line
     return content
+
+
+def unquote_string_token(value, quote):
+    # remove the quotes of a quoted string token and decode its escapes in one pass
+    value = value[1:-1]
+
+    def decode(match):
+        item = match.group(0)
+        if item == "''":
+            return "'"
+        if item[1] in ('\\', '"', "'"):
+            return item[1]
+        # unknown escape sequence is kept as it is
+        return item
+
+    pattern = r"\\.|''" if quote == "'" else r'\\.'
+    return re.sub(pattern, decode, value)
